@@ -638,3 +638,16 @@ Proof.
       * destruct P1 as [->|(j & -> & Hj)]; auto. right. exists j. rewrite He. auto.
       * right. exists i. split; auto. lia.
 Qed.
+
+(* ------------------------------------------------------------------ teeth *)
+
+(* what the freshness theorems exclude: the allocator SQLite uses for an INTEGER PRIMARY KEY WITHOUT
+   AUTOINCREMENT - largest existing rowid + 1.  After destroying the newest object it hands the dead
+   identifier out again, while the persisted counter does not. *)
+Definition next_of_max (st : store) : Z := fold_right Z.max 0 (uids st) + 1.
+
+Example rowid_allocator_would_reuse :
+  let st0 := snd (add_objs 0 [TSym; TSym] init_store) in
+  let st1 := remove_obj 2 st0 in
+  uids st0 = [1; 2] /\ uids st1 = [1] /\ next_of_max st1 = 2 /\ next_uid st1 = 3.
+Proof. vm_compute. auto. Qed.
